@@ -35,9 +35,12 @@ class SymDT:
     """datetime model with broken-down (possibly symbolic) fields; only UTC / naive values are modelled"""
     __pysym_model__ = True
 
-    def __init__(self, f, aware, precision=None, constraint=None):
+    def __init__(self, f, aware, precision=None, constraint=None, pytz_utc=False):
+        """aware: False = naive, True = UTC-aware.  pytz_utc: tzinfo is the pytz.utc singleton (astimezone(pytz.utc) then returns the SAME
+        object, metadata included); otherwise another zero-offset tzinfo (astimezone builds a plain new value without metadata)."""
         self.f = dict(f)
-        self.tzinfo = UTC if aware else None
+        self.pytz_utc = bool(aware and pytz_utc)
+        self.tzinfo = (pytz.utc if self.pytz_utc else UTC) if aware else None
         if precision is not None:
             self.precision = precision
             self.precision_constraint = constraint
@@ -61,7 +64,9 @@ class SymDT:
     def astimezone(self, tz=None):
         if tz is not pytz.utc and tz is not dt.timezone.utc:
             raise Unsupported("astimezone to a zone other than UTC")
-        return SymDT(self.f, True)
+        if self.pytz_utc and tz is pytz.utc:
+            return self                      # CPython: astimezone() returns self when tzinfo is the target zone object
+        return SymDT(self.f, True, pytz_utc=(tz is pytz.utc))
 
     def replace(self, **kw):
         names = dict(year="Y", month="M", day="D", hour="h", minute="m", second="s", microsecond="us")
@@ -74,7 +79,7 @@ class SymDT:
                 f[names[k]] = v
             else:
                 raise Unsupported("replace(%s)" % k)
-        return SymDT(f, aware)
+        return SymDT(f, aware, pytz_utc=self.pytz_utc and aware)
 
     def strftime(self, fmt):
         out = []
@@ -124,14 +129,14 @@ def is_strptime(fn):
 def localize_stub(d, is_dst=False):
     if not isinstance(d, SymDT):
         raise Unsupported("localize of %r" % type(d))
-    return SymDT(d.f, True)
+    return SymDT(d.f, True, pytz_utc=True)
 
 
 def stixdt_stub(ts, precision=Precision.ANY, precision_constraint=PrecisionConstraint.EXACT):
     if not isinstance(ts, SymDT):
         raise Unsupported("STIXdatetime(%r)" % type(ts))
     return SymDT(ts.f, ts.tzinfo is not None, utils.to_enum(precision, Precision),
-                 utils.to_enum(precision_constraint, PrecisionConstraint))
+                 utils.to_enum(precision_constraint, PrecisionConstraint), pytz_utc=ts.pytz_utc)
 
 
 def strptime_stub(value, fmt):
@@ -314,11 +319,9 @@ def replay_format(Y, M, D, h, m, s, us, aware, pname, cname):
     """real format_datetime on a real STIXdatetime vs the integer-arithmetic oracle"""
     p, c = Precision[pname], PrecisionConstraint[cname]
     # "aware" covers every tzinfo with offset 0: the pytz singleton (astimezone returns the same object) and others
-    for tz in ((pytz.utc, dt.timezone.utc) if aware else (None,)):
-        d = STIXdatetime(Y, M, D, h, m, s, us, tz, precision=p, precision_constraint=c)
-        if utils.format_datetime(d) != oracle_text_py(Y, M, D, h, m, s, us, p, c):
-            return False
-    return True
+    tz = {0: None, False: None, 1: pytz.utc, True: pytz.utc, 2: dt.timezone.utc}[aware]
+    d = STIXdatetime(Y, M, D, h, m, s, us, tz, precision=p, precision_constraint=c)
+    return utils.format_datetime(d) == oracle_text_py(Y, M, D, h, m, s, us, p, c)
 
 
 def replay_parse_format(text, pname, cname):
@@ -375,10 +378,10 @@ def validate(seed, n=150):
         cases.append((Y, rnd.randint(1, 12), rnd.randint(1, 28), rnd.randint(0, 23), rnd.randint(0, 59), rnd.randint(0, 59), us))
     for (Y, M, D, h, m, s, us) in cases:
         for p, c in SETTINGS:
-            aware = rnd.random() < 0.5
-            real_d = STIXdatetime(Y, M, D, h, m, s, us, pytz.utc if aware else None, precision=p, precision_constraint=c)
+            aware = rnd.choice((0, 1, 2))
+            real_d = STIXdatetime(Y, M, D, h, m, s, us, {0: None, 1: pytz.utc, 2: dt.timezone.utc}[aware], precision=p, precision_constraint=c)
             real = utils.format_datetime(real_d)
-            mine = I.call_function(utils.format_datetime, [SymDT(dict(Y=Y, M=M, D=D, h=h, m=m, s=s, us=us), aware, p, c)], {})
+            mine = I.call_function(utils.format_datetime, [SymDT(dict(Y=Y, M=M, D=D, h=h, m=m, s=s, us=us), aware > 0, p, c, pytz_utc=(aware == 1))], {})
             if real != mine:
                 raise AssertionError("translator validation (format_datetime): %r vs %r" % (real, mine))
             count += 1
@@ -436,11 +439,11 @@ def job_format(tier, seed):
     eng = Engine()
     bad, cands, samples, asserting = 0, [], [], 0
     try:
-        for aware in (False, True):
+        for aware in (0, 1, 2):          # naive, pytz.utc, another zero-offset tzinfo
             for p, c in SETTINGS:
                 def body(eng):
                     f = fresh(eng)
-                    return f, I.call_function(utils.format_datetime, [SymDT(f, aware, p, c)], {})
+                    return f, I.call_function(utils.format_datetime, [SymDT(f, aware > 0, p, c, pytz_utc=(aware == 1))], {})
                 for pc, (kind, val) in eng.explore(body):
                     if kind != "return":
                         bad += 1
@@ -668,7 +671,7 @@ def replay_property_clean(Y, M, D, h, m, s, us, aware, in_meta, pname, cname):
     """real TimestampProperty(precision, constraint).clean on a datetime / STIXdatetime that may carry OTHER precision metadata"""
     from stix2.properties import TimestampProperty
     p, c = Precision[pname], PrecisionConstraint[cname]
-    tz = pytz.utc if aware else None
+    tz = {0: None, False: None, 1: pytz.utc, True: pytz.utc, 2: dt.timezone.utc}[aware]
     if in_meta is None:
         v = dt.datetime(Y, M, D, h, m, s, us, tz)
     else:
@@ -694,10 +697,10 @@ def job_property_clean(tier, seed):
         for p, c in SETTINGS:
             prop = TimestampProperty(precision=p.name.lower(), precision_constraint=c.name.lower())
             for meta in metas:
-                for aware in (False, True):
+                for aware in (0, 1, 2):
                     def body(eng):
                         f = fresh(eng)
-                        v = SymDT(f, aware, *(meta or (None, None)))
+                        v = SymDT(f, aware > 0, *(meta or (None, None)), pytz_utc=(aware == 1))
                         out = I.call_function(TimestampProperty.clean, [prop, v], {})
                         x = out[0]
                         return f, x, I.call_function(utils.format_datetime, [x], {})
